@@ -274,6 +274,13 @@ impl TryFrom<(&Config, &CompassAppBuilder)> for CompassApp {
 
         // other parameters
         let parallelism = config.get::<usize>(CompassConfigurationField::Parallelism.to_str())?;
+        // a parallelism of 0 runs nothing: every non-empty batch would fail in load balancing. the
+        // configuration library also turns `false`, `nan`, `-0` and fractions below 0.5 into 0
+        if parallelism == 0 {
+            return Err(CompassAppError::BuildFailure(String::from(
+                "parallelism must be at least 1",
+            )));
+        }
         let search_orientation = config
             .get::<SearchOrientation>(CompassConfigurationField::SearchOrientation.to_str())?;
         let response_persistence_policy = config.get::<ResponsePersistencePolicy>(
